@@ -9,7 +9,7 @@ META = dict(
 def run(ctx):
     n = ctx.pick(5, 6)
     m = ctx.pick(6, 8)
-    path, _ = ctx.tlc_gen("data", "PathNormGen", consts={"N": n, "M": m}, workers=8, timeout=2400,
+    path, _ = ctx.tlc_gen("data", "PathNormGen", consts={"N": n, "M": m, "K": ctx.pick(4, 6)}, workers=8, timeout=2400,
                           args=["-maxSetSize", "4000000"], heap="12g")
     if not path:
         raise __import__("verif.core").core.Infra("PathNormGen wrote no vectors")
